@@ -6,6 +6,7 @@ from curtsies.formatstring import FmtStr, fmtstr
 from curtsies.formatstringarray import FSArray, fsarray
 from curtsies.window import BaseWindow
 import re
+import sgrterm
 from props.common import chunks_for, eff_cells, PALETTE
 
 PROP = "C04"
@@ -555,6 +556,22 @@ def check_read(op, g, W, result):
     return out
 
 
+def render_problem(row):
+    """a row observed through its TERMINAL STRING: str(row) must be the rendering of the row's own runs (a value rebuilt from
+    the same runs renders, compares and hashes the same - no stale memo), and a terminal (harness/sgrterm.py) must show the
+    row's cells for it. -> None or a description"""
+    runs = wire.fmt_chunks(row)
+    fresh = wire.mk_fmt(runs)
+    sr = str(row)
+    if sr != str(fresh) or not (row == fresh) or hash(row) != hash(fresh):
+        return "str()/==/hash are not those of a value rebuilt from its runs %r: str() is %r, rebuilt %r" % (runs, sr, str(fresh))
+    if "\x1b" not in row.s and "\x9b" not in row.s:
+        shown = sgrterm.display(sr)[0]
+        if shown != cells(row):
+            return "a terminal shows %r for str(row), its runs say %r" % (shown, cells(row))
+    return None
+
+
 def layout_text(msg, rows, W):
     """array_from_text_rc's meaning, cursor-free: the text split at every CR / LF; each line but the last is padded with
     blanks up to the next multiple of W strictly beyond its end (a line break always moves to a fresh row, so a full row
@@ -642,6 +659,10 @@ def oracle_raw(c, model_reply=None):
         out.append(("FSArray(%d,%d) is not a blank %dx%d array" % (c["nr"], W, c["nr"], W), None))
     for k, op in enumerate(c["ops"]):
         before = snapshot(a)
+        try:
+            [(str(row), hash(row)) for row in a.rows]       # the rows have been RENDERED (and hashed) before the call
+        except Exception:  # noqa: BLE001
+            pass
         if op["o"] in ("S", "T", "I"):
             try:        # the request that puts the model into the real state before this call: a[i] = row for every row
                 pre = ["I/%d/%s" % (ri, wire.enc_fmt(row)) for ri, row in enumerate(a.rows)]
@@ -652,6 +673,9 @@ def oracle_raw(c, model_reply=None):
                 tok = apply_op(a, op)
                 after = snapshot(a)
                 for ri, row in enumerate(a.rows):       # the other views of every row agree with its cells
+                    rp = render_problem(row)
+                    if rp:
+                        out.append(("op %d %s: row %d: %s" % (k, enc_op(op)[:60], ri, rp), None))
                     if row.s != "".join(ch for ch, _ in after[ri]) or len(row) != len(after[ri]):
                         out.append(("op %d %s: row %d has .s %r / len %d but its runs spell %r" % (
                             k, enc_op(op)[:60], ri, row.s, len(row), "".join(ch for ch, _ in after[ri])), None))
@@ -675,6 +699,13 @@ def oracle_raw(c, model_reply=None):
                 res = wire.exc_kind(e)
             if snapshot(a) != before:
                 out.append(("op %d: reading changed the array" % k, None))
+            try:
+                for x in (res if isinstance(res, list) else [res] if isinstance(res, FmtStr) else []):
+                    rp = render_problem(x)
+                    if rp:
+                        out.append(("op %d %s: a row read back: %s" % (k, enc_op(op), rp), None))
+            except Exception as e:  # noqa: BLE001
+                out.append(("op %d %s: rendering a row read back raised %s" % (k, enc_op(op), type(e).__name__), None))
             for what, fp in check_read(op, before, W, res):
                 out.append(("op %d %s: %s" % (k, enc_op(op), what), fp))
         if a.num_columns != W:
@@ -754,6 +785,13 @@ def mk_cases(ctx):
                     rows = [[("PQRS"[:max(0, w - i)], {"fg": 36})] for i in range(r1 - r0)]
                     cases.append(dict(kind="hist", nr=2, nc=3, fa=0,
                                       ops=pre + [dict(o="S", r=("s", r0, r1), c=("s", c0, c1), v=dict(k="fsa", rows=rows, w=w))]))
+                    # the block's DECLARED width is larger than what its rows show (FSArray rows may be shorter than its width):
+                    # it composites like the list of its rows
+                    if w == c1 - c0:
+                        cases.append(dict(kind="hist", nr=2, nc=3, fa=0,
+                                          ops=pre + [dict(o="S", r=("s", r0, r1), c=("s", c0, c1), v=dict(k="fsa", rows=rows, w=w + 2)),
+                                                     dict(o="G", r=("s", 0, 4), c=("s", 0, 3))]))
+                        n0 += 1
                     n0 += 1
     # rows containing double-width / combining / zero-width / control characters: compositing is by CHARACTER offset
     wide_pre = [dict(o="S", r=("s", 0, 2), c=("s", 0, 3),
@@ -856,7 +894,7 @@ def mk_cases(ctx):
                 if q < 0.08:
                     v = dict(k="str", s="".join(r.choice("xyz") for _ in range(nrows)))
                 elif q < 0.25:
-                    v = dict(k="fsa", rows=[row_item(n, r.choice((1, 2)), r.randint(0, 5), ALPHA.upper())[1] for n in lens], w=max(lens + [0]))
+                    v = dict(k="fsa", rows=[row_item(n, r.choice((1, 2)), r.randint(0, 5), ALPHA.upper())[1] for n in lens], w=max(lens + [0]) + r.choice((0, 0, 1, 3)))
                 else:
                     v = dict(k="list", items=[row_item(n, r.choice((0, 1, 2)), r.randint(0, 5), ALPHA.upper()) for n in lens])
                     if v["items"] and r.random() < 0.05:
